@@ -204,6 +204,12 @@ func TestCheck(t *testing.T) {
 		return nil
 	}
 
+	var denseQ [2]int64
+	denseDone := make(chan struct{})
+	go func() {
+		defer close(denseDone)
+		ev.Par(2, 2, func(i int) { denseQ[i] = h.denseSweep(i == 1) })
+	}()
 	type result struct {
 		st, tr, md, qs int64
 		per            []int
@@ -248,6 +254,9 @@ func TestCheck(t *testing.T) {
 	}
 	wg.Wait()
 	r.Set("failed_commit_cases", fcCases.Load())
+	<-denseDone
+	r.Set("dense_block_queries", denseQ[0]+denseQ[1])
+	h.queries.Add(denseQ[0] + denseQ[1])
 	var states, transitions, maxDepth, qstates int64
 	var cfgNames []string
 	for i, c := range cfgs {
@@ -283,6 +292,7 @@ func TestCheck(t *testing.T) {
 		"failed-commit sweep: every base (window-boundary bases also without a snapshot on disk) x {store:X, store:Y, revert} x k-th commit fails -> same node answers the grid; "+
 		"a new node on that image (= crash before commit k) answers the grid and performs the op; retry on the same node succeeds and answers the grid, "+
 		"then every continuation of <= 2 further ops followed by an ungraceful restart answers the grid; "+
+		"dense blocks: chains with two blocks of 100..6000 single-key events from distinct emitters (a quarter to nearly all of the 8192 bloom bits set), one query per event key and per emitter on the long-lived node and after both kinds of restart; "+
 		"paged to the end (tokens round-tripped through their string form, must advance) and compared event by event with the naive scan of the reference receipts",
 		opList(alphabet), len(h.filters), chunkSizes, scanLimits, longRange, pcDepth))
 	r.Assume = append(r.Assume,
